@@ -902,6 +902,126 @@ func (a *Analysis) generatedFile(ct *CodecType) bool {
 // parameters) plus the set of distinct shapes of its failing paths. Two spellings of the same behaviour (a bulk
 // path for long lists next to a loop for short ones) render alike. Falls back to path shapes when a success path
 // is not a recognisable field sequence.
+// primitiveMirror: the wire renderings (type parameters by position, field names dropped) of the reader primitives and
+// of the writer primitives must be the same set – a reader whose rendering no writer produces (or the reverse) cannot
+// be the inverse of anything in the library, whatever instantiation a message uses.
+func (a *Analysis) primitiveMirror() (problems []string, pos []string, n int) {
+	type rend struct {
+		fn  *ssa.Function
+		key string
+	}
+	var readers, writers []rend
+	nameless := func(f *FieldLayout) string {
+		var strip func(f *FieldLayout) *FieldLayout
+		strip = func(f *FieldLayout) *FieldLayout {
+			if f == nil {
+				return nil
+			}
+			g := *f
+			g.Name = ""
+			g.Elem = strip(f.Elem)
+			if (g.Kind == "obj" || g.Kind == "dyn") && g.Table == "" {
+				g.Kind, g.Obj, g.Key = "obj", "", "" // a nested part of the caller's choosing
+			}
+			return &g
+		}
+		return strip(f).WireCanon()
+	}
+	for _, fn := range a.U.Prims {
+		if fn.Blocks == nil {
+			continue
+		}
+		paths, err := a.engineFor(fn).AnalyzeRoot(fn, nil)
+		if err != nil {
+			continue
+		}
+		isReader := hasEvent(paths, isRead)
+		isWriter := hasEvent(paths, isWrite)
+		if isReader == isWriter {
+			continue
+		}
+		for _, p := range paths {
+			if pathKind(p) != "ok" {
+				continue
+			}
+			c := &layoutCtx{u: a.U, path: p}
+			var fs []*FieldLayout
+			if isReader {
+				fs = c.extractDec(p.Events, func(ids []int, loop int) (string, int, *Val, bool) {
+					for _, rv := range p.Ret {
+						for _, id := range ids {
+							if containsWire(rv, id) {
+								return "ret", 0, rv, true
+							}
+						}
+						if loop != 0 && containsCollect(rv, loop) {
+							return "ret", 0, rv, true
+						}
+					}
+					return "", -1, nil, false
+				})
+			} else {
+				fs = c.extractEnc(p.Events)
+			}
+			if len(fs) == 0 {
+				continue
+			}
+			var parts []string
+			irregularAny := false
+			for _, f := range fs {
+				if f.Kind == "irregular" || (f.Elem != nil && f.Elem.Kind == "irregular") {
+					irregularAny = true
+				}
+				parts = append(parts, nameless(f))
+			}
+			if irregularAny {
+				continue // helpers that are not a rendering of their own (pad-only, prefix-only); judged where they are inlined
+			}
+			fixedText := false
+			for _, f := range fs {
+				if f.Kind == "fixed" || (f.Elem != nil && f.Elem.Kind == "fixed") {
+					fixedText = true
+				}
+			}
+			if fixedText {
+				continue // fixed-width text: writer/reader agreement under every valuation is C13's X5/X6
+			}
+			r := rend{fn: fn, key: strings.Join(parts, " · ")}
+			if isReader {
+				readers = append(readers, r)
+			} else {
+				writers = append(writers, r)
+			}
+		}
+	}
+	has := func(set []rend, key string) bool {
+		for _, r := range set {
+			if r.key == key {
+				return true
+			}
+		}
+		return false
+	}
+	seen := map[string]bool{}
+	for _, r := range readers {
+		n++
+		if !has(writers, r.key) && !seen["r"+FuncName(r.fn)+r.key] {
+			seen["r"+FuncName(r.fn)+r.key] = true
+			problems = append(problems, fmt.Sprintf("reader primitive %s consumes %s, which no writer primitive of the library produces", FuncName(r.fn), r.key))
+			pos = append(pos, a.P.Pos(r.fn.Pos()))
+		}
+	}
+	for _, w := range writers {
+		n++
+		if !has(readers, w.key) && !seen["w"+FuncName(w.fn)+w.key] {
+			seen["w"+FuncName(w.fn)+w.key] = true
+			problems = append(problems, fmt.Sprintf("writer primitive %s produces %s, which no reader primitive of the library consumes", FuncName(w.fn), w.key))
+			pos = append(pos, a.P.Pos(w.fn.Pos()))
+		}
+	}
+	return
+}
+
 func (a *Analysis) primRendering(fn *ssa.Function, flip bool) ([]string, error) {
 	args, _, _, _ := roleArgs(fn, 0)
 	// bool parameters stay symbolic here: both arms are rendered
